@@ -141,7 +141,11 @@ def signature(inst, clause):
 
 
 def prior_arg(inst):
-  return np.array(inst['prior_array']) if inst['prior'] == 'array' else inst['prior']
+  if inst['prior'] != 'array':
+    return inst['prior']
+  A = np.array(inst['prior_array'])
+  # the same SPD matrix, for every other instance in column-major memory order (np.asfortranarray / a transposed view are ndarrays too)
+  return np.asfortranarray(A) if inst['k'] % 2 else A
 
 
 def explicit_bounds(inst, ml_util, pairs, y):
